@@ -62,6 +62,11 @@ type kvElection struct {
 	// pick log fields out of it. ctx itself is read and written under mu.
 	ctxForLog atomic.Pointer[context.Context]
 
+	// draining is non-nil while a stop call's wait on wg has not returned yet
+	// (closed when it has). The wait group must not be re-used before that:
+	// Start refuses to run until the previous run has drained. Guarded by mu.
+	draining chan struct{}
+
 	// termCancel ends the context of the current leadership term (guarded by mu).
 	termCancel context.CancelFunc
 
@@ -208,6 +213,15 @@ func (e *kvElection) Start(ctx context.Context) error {
 
 	if e.ctx != nil && e.ctx.Err() == nil {
 		return ErrAlreadyStarted
+	}
+
+	if e.draining != nil {
+		select {
+		case <-e.draining:
+			e.draining = nil
+		default:
+			return ErrStopInProgress
+		}
 	}
 
 	e.ctx, e.cancel = context.WithCancel(ctx)
@@ -740,6 +754,12 @@ func (e *kvElection) Stop() error {
 		e.disconnectHandler.stop()
 	}
 
+	// Several stop calls may overlap; each waits on wg, and Start may re-use
+	// the wait group only when all of them have returned from that wait.
+	drained := make(chan struct{})
+	prevDraining := e.draining
+	e.draining = drained
+
 	e.mu.Unlock()
 
 	log := e.getLogger()
@@ -757,6 +777,10 @@ func (e *kvElection) Stop() error {
 	go func() {
 		e.wg.Wait()
 		close(done)
+		if prevDraining != nil {
+			<-prevDraining
+		}
+		close(drained)
 	}()
 
 	select {
@@ -809,6 +833,12 @@ func (e *kvElection) StopWithContext(ctx context.Context, opts StopOptions) erro
 		e.disconnectHandler.stop()
 	}
 
+	// Several stop calls may overlap; each waits on wg, and Start may re-use
+	// the wait group only when all of them have returned from that wait.
+	drained := make(chan struct{})
+	prevDraining := e.draining
+	e.draining = drained
+
 	e.mu.Unlock()
 
 	if e.connectionMonitor != nil {
@@ -833,6 +863,10 @@ func (e *kvElection) StopWithContext(ctx context.Context, opts StopOptions) erro
 	go func() {
 		e.wg.Wait()
 		close(done)
+		if prevDraining != nil {
+			<-prevDraining
+		}
+		close(drained)
 	}()
 
 	select {
